@@ -154,7 +154,12 @@ impl Property for C06 {
         let (a, b) = match (cfggen::ops_from_value(&plan["a"]), cfggen::ops_from_value(&plan["b"])) { (Ok(a), Ok(b)) => (a, b), (Err(e), _) | (_, Err(e)) => return RunReport { harness_error: Some(format!("bad plan: {e}")), ..Default::default() } };
         let on_a = plan["b_base"].as_str() != Some("empty");
         let summary = format!("A=[{}] B={}+[{}]", cfggen::summarize_ops(&a), if on_a { "A" } else { "empty" }, cfggen::summarize_ops(&b));
-        let o = run(a, b, on_a, plan["seed_a"].as_u64().unwrap_or(0), plan["seed_b"].as_u64().unwrap_or(1));
+        let has_replace = a.iter().chain(b.iter()).any(|r| matches!(r.request_type, Some(sozu_command_lib::proto::command::request::RequestType::ReplaceCertificate(_))));
+        let mut o = run(a, b, on_a, plan["seed_a"].as_u64().unwrap_or(0), plan["seed_b"].as_u64().unwrap_or(1));
+        // see c05.rs: certificate keys carry the plan-level trigger of CFG-S2
+        for v in o.violations.iter_mut() {
+            if v.key.to_ascii_lowercase().contains("certificate") && !v.key.contains("same_fingerprint_other_attributes") { v.key = format!("{}|{}", v.key, if has_replace { "replace_certificate_in_history" } else { "no_replace_certificate" }); }
+        }
         let mut rep = RunReport { seed: plan["seed"].as_u64().unwrap_or(0), family: plan["family"].as_str().unwrap_or("").into(), violations: o.violations, trace_hash: o.hash, summary, ..Default::default() };
         rep.nontrivial = o.nontrivial;
         rep.probes = o.probes;
